@@ -186,6 +186,22 @@ impl Ctx {
         });
         match r {
             Ok(Ok((a, b, c, d, ok))) => {
+                // the legacy header through the packet-header value as well (its own length-type choice), for a tag the
+                // legacy format can carry whatever `tag` is: octets = model, write_len truthful, reads back
+                {
+                    let t_old = tag % 16;
+                    let e = guarded(|| -> Option<(Vec<u8>, bool)> {
+                        let h = PacketHeader::from_parts(PacketHeaderVersion::Old, Tag::from(t_old), PacketLength::Fixed(n)).ok()?;
+                        let mut e = Vec::new(); h.to_writer(&mut e).ok()?;
+                        let back = matches!(PacketHeader::try_from_reader(&e[..]), Ok(ph) if ph.packet_length() == PacketLength::Fixed(n) && u8::from(ph.tag()) == t_old);
+                        Some((e.clone(), back && e.len() == h.write_len()))
+                    });
+                    match e {
+                        Ok(Some((e, good))) => self.out.case("enc_hdr_old", &[t_old.to_string(), n.to_string()], &["hdr_write".into(), tag.to_string(), n.to_string()], &hx(&e), Some(good), &format!("{cls}-old-from-parts")),
+                        Ok(None) => self.out.case("enc_hdr_old", &[t_old.to_string(), n.to_string()], &["hdr_write".into(), tag.to_string(), n.to_string()], "ERR", Some(false), &format!("{cls}-old-from-parts")),
+                        Err(pn) => self.out.case("", &[], &["hdr_write".into(), tag.to_string(), n.to_string()], &pn, Some(false), &format!("{cls}-old-from-parts")),
+                    }
+                }
                 self.out.case("enc_len", &[n.to_string()], &["hdr_write".into(), tag.to_string(), n.to_string()], &hx(&a), Some(ok), cls);
                 self.out.case("enc_hdr_new", &[tag.to_string(), n.to_string()], &["hdr_write".into(), tag.to_string(), n.to_string()], &hx(&b), Some(b == c), cls);
                 if let Some(d) = d { self.out.case("enc_hdr_old", &[tag.to_string(), n.to_string()], &["hdr_write".into(), tag.to_string(), n.to_string()], &hx(&d), None, cls); }
